@@ -8,6 +8,7 @@ require (
 	github.com/GuanceCloud/platypus v0.0.0
 	github.com/antchfx/xmlquery v1.3.12
 	github.com/araddon/dateparse v0.0.0-20201001162425-8aadafed4dc4
+	github.com/influxdata/influxdb1-client v0.0.0-20220302092344-a9ab5670611c
 	go.uber.org/zap v1.23.0
 )
 
